@@ -71,6 +71,8 @@ ASMJIT_FAVOR_SIZE Error init_call_conv(CallConv& cc, CallConvId call_conv_id, co
         cc.set_flags(CallConvFlags::kCalleePopsStack | CallConvFlags::kPassFloatsByVec);
         cc.set_passed_order(RegGroup::kGp, kZcx, kZdx);
         cc.set_passed_order(RegGroup::kVec, 0, 1, 2, 3, 4, 5);
+        // Vector arguments that don't fit into the six registers are passed by reference.
+        cc.add_flags(CallConvFlags::kIndirectVecArgs);
         break;
 
       case CallConvId::kThisCall:
@@ -411,6 +413,31 @@ ASMJIT_FAVOR_SIZE Error init_func_detail(FuncDetail& func, const FuncSignature& 
               if (signature.has_var_args() && cc.has_flag(CallConvFlags::kPassVecByStackIfVA)) {
                 reg_id = Reg::kIdBad;
               }
+            }
+
+            // A vector argument that didn't get a vector register is passed by reference if the calling convention
+            // says so (32-bit VectorCall) - the pointer is then passed like an integer argument (via GP register if
+            // there is one left, via stack otherwise). Floats passed via vector registers are vector types as well.
+            if (reg_id == Reg::kIdBad && cc.has_flag(CallConvFlags::kIndirectVecArgs) &&
+                (TypeUtils::is_vec(type_id) || cc.has_flag(CallConvFlags::kPassFloatsByVec))) {
+              uint32_t gp_reg_id = Reg::kIdBad;
+
+              if (gpz_pos < CallConv::kMaxRegArgsPerGroup) {
+                gp_reg_id = cc._passed_order[RegGroup::kGp].id[gpz_pos];
+              }
+
+              if (gp_reg_id != Reg::kIdBad) {
+                arg.assign_reg_data(register_size == 4 ? RegType::kGp32 : RegType::kGp64, gp_reg_id);
+                func.add_used_regs(RegGroup::kGp, Support::bit_mask<RegMask>(gp_reg_id));
+                gpz_pos++;
+              }
+              else {
+                arg.assign_stack_offset(int32_t(stack_offset));
+                stack_offset += register_size;
+              }
+
+              arg.add_flags(FuncValue::kFlagIsIndirect);
+              continue;
             }
 
             if (reg_id != Reg::kIdBad) {
